@@ -175,13 +175,13 @@ func c10Scenarios(tier string) []Scenario {
 		}
 		// (4c) a transmission fails: the id must stay usable and later traffic for it must not wedge anything
 		for _, burst := range []int{0, 1, 3, 7} {
-			for _, fw := range [][]int{{0}, {1}, {0, 1}} {
+			for fwi, fw := range [][]int{{0}, {1}, {0, 1}, {0}, {1}} {
 				var d []DgSpec
 				for i := 0; i < burst; i++ {
 					d = append(d, DgSpec{At: 1, Kind: DgBad, ID: 0})
 				}
 				d = append(d, DgSpec{At: 8, Kind: DgGood, ID: 0}, DgSpec{At: 8, Kind: DgGood, ID: 1})
-				add(&ClientScenario{V6: v6, T: T, Tries: 2, BufCap: -1, CloseAt: -1, Bound: bound - 1, FailWrites: fw,
+				add(&ClientScenario{V6: v6, T: T, Tries: 2, BufCap: -1, CloseAt: -1, Bound: bound - 1, FailWrites: fw, FailKind: fwi / 3,
 					Calls: []CallSpec{{ID: 0, Match: MatchGood, CancelAt: -1, After: -1}, {ID: 0, Match: MatchGood, StartAt: 7, CancelAt: -1, After: 0},
 						{ID: 1, Match: MatchNil, StartAt: 7, CancelAt: -1, After: -1}}, Dgs: d}, "write-fault")
 			}
@@ -205,6 +205,18 @@ func c10Scenarios(tier string) []Scenario {
 					add(&ClientScenario{V6: v6, T: T + 1, Tries: 1, BufCap: 1, CloseAt: -1, Bound: 1, Log: true, LogKind: lk,
 						Calls: []CallSpec{{ID: 0, Match: m, CancelAt: -1, After: -1}}, Dgs: append([]DgSpec{}, d...)}, "logging")
 				}
+			}
+		}
+		// (4c') the library's own matcher constructor, every call passing the same slice (with spare capacity) as its tail:
+		// what one call's matcher accepts must not depend on the matchers built for other calls
+		for _, seq := range dgSequences(alpha2[:4], 3) {
+			for _, ms := range [][2]MatchKind{{MatchLibGood, MatchLibBad}, {MatchLibBad, MatchLibGood}, {MatchLibGood, MatchLibGood}} {
+				d := append([]DgSpec{}, seq...)
+				for i := range d {
+					d[i].At = 1
+				}
+				add(&ClientScenario{V6: v6, T: T, Tries: 1, BufCap: -1, CloseAt: -1, Bound: 1,
+					Calls: []CallSpec{{ID: 0, Match: ms[0], CancelAt: -1, After: -1}, {ID: 1, Match: ms[1], CancelAt: -1, After: -1}}, Dgs: d}, "library-matchers")
 			}
 		}
 		// (4d') DHCPv4: the hardware address the client answers for comes from WithHWAddr, not from the constructor
